@@ -447,7 +447,9 @@ def apply_mod_mapping(match, molecule, graph_out, mol_to_out, out_to_mol):
             # Undefined loop variable is guarded against by the else-raise above
             mod_to_out[mod_idx] = out_idx  # pylint: disable=undefined-loop-variable
             graph_out.nodes[out_idx].update(modification.nodes[mod_idx].get('replace', {})) # pylint: disable=undefined-loop-variable
-        graph_out.nodes[out_idx]['modifications'] = graph_out.nodes[out_idx].get('modifications', [])
+        # Copy the list: the node attributes come from the modification of the
+        # mapping, whose 'modifications' list must not grow with every use.
+        graph_out.nodes[out_idx]['modifications'] = list(graph_out.nodes[out_idx].get('modifications', []))
         if modification not in graph_out.nodes[out_idx]['modifications']:
             graph_out.nodes[out_idx]['modifications'].append(modification)
 
